@@ -44,6 +44,26 @@ Section Tree.
         (if is_nil lr then [] else groups l lr) ++ (if is_nil rr then [] else groups r rr)
     end.
 
+  (* the code's own formulation: explicit LIFO stack; the right child is pushed first, so the left one is processed first *)
+  Fixpoint tsize (T : tree) : nat := match T with Leaf _ => 1 | Node _ _ l r => S (tsize l + tsize r) end.
+  Fixpoint groups_loop (fuel : nat) (stack : list (tree * list irow)) (acc : list (L * list irow)) : option (list (L * list irow)) :=
+    match fuel with
+    | O => None
+    | S f =>
+      match stack with
+      | [] => Some acc
+      | (Leaf m, rows) :: st => groups_loop f st (acc ++ [(m, rows)])
+      | (Node v b l r, rows) :: st =>
+          let lr := filter (fun r => goes_left (dot (snd r) v) b) rows in
+          let rr := filter (fun r => negb (goes_left (dot (snd r) v) b)) rows in
+          let st1 := if is_nil rr then st else (r, rr) :: st in
+          let st2 := if is_nil lr then st1 else (l, lr) :: st1 in
+          groups_loop f st2 acc
+      end
+    end.
+  Definition groups_iter (T : tree) (rows : list irow) : option (list (L * list irow)) :=
+    groups_loop (S (tsize T)) [(T, rows)] [].
+
   (* RFM.predict: the rows of one leaf are processed in chunks of max_batch_size *)
   Fixpoint chunks_aux {A} (fuel : nat) (bs : nat) (l : list A) : list (list A) :=
     match fuel with
